@@ -342,10 +342,15 @@ def _apps():
     return _apps.cache
 
 
-def execute(stack, body, b, lim, script, variant, json_ok=True, hang_after=4.0):
+_hangs = [0]
+
+
+def execute(stack, body, b, lim, script, variant, json_ok=True):
     """Run `script` against `body` on one stack.  variant: dict(cs=.., chunks=[..]).
-    Returns the list of events (the last one is a status event for the full-stack runs)."""
+    Returns the list of events (the last one is a status event for the full-stack runs).
+    The watchdog is generous (a loaded machine must not look like a hang) until a first hang was seen."""
     import falcon
+    hang_after = 30.0 if _hangs[0] == 0 else 3.0
     body = bytes(body)
     ctype = content_type_header(b, variant.get('quote', False))
     is_async = stack in ('h-async', 'asgi')
@@ -385,6 +390,8 @@ def execute(stack, body, b, lim, script, variant, json_ok=True, hang_after=4.0):
         e = _ev('next')
         e['out'] = 'hang'
         rec.events.append(e)
+    if rec.events and rec.events[-1]['out'] == 'hang':
+        _hangs[0] += 1
     return rec.events
 
 
@@ -751,9 +758,9 @@ def run(ctx):
 
     # ---- leg A: behaviours exported by TLC, replayed ---------------------------------------------
     beh = {}
-    for cfg in ctx.pick(('MC_MultipartExp.cfg', 'MC_MultipartExpC.cfg'),
+    for cfg in ctx.pick(('MC_MultipartExp.cfg', 'MC_MultipartExpCQ.cfg'),
                         ('MC_MultipartExp.cfg', 'MC_MultipartExp2.cfg', 'MC_MultipartExpC.cfg')):
-        rx = ctx.tlc('MC_Multipart', cfg, workers=4, timeout=1200)
+        rx = ctx.tlc('MC_Multipart', cfg, workers=8, timeout=1200)
         for b in rx.json:
             beh[digest(b)] = b
     if not ctx.quick:
@@ -772,7 +779,7 @@ def run(ctx):
         raise MachineryError('vacuous export: no behaviour contains %s' % sorted(missing))
     ctx.extra['spec_behaviours'] = len(beh)
     ctx.progress('leg A: %d distinct behaviours exported by TLC' % len(beh))
-    per = ctx.pick(5, 10)
+    per = ctx.pick(5, 6)
     replays = 0
     blist = list(beh.values())
     rng.shuffle(blist)
@@ -808,7 +815,7 @@ def run(ctx):
     # ---- leg B: bigger seeded cases, recorded and judged by TLC -----------------------------------
     seen = {}            # trace digest -> (trace, case)
     ncases = ctx.pick(1100, 16000)
-    per = ctx.pick(6, 10)
+    per = ctx.pick(6, 8)
     runs = 0
     for i in range(ncases):
         bnd = random_boundary(rng)
